@@ -93,6 +93,9 @@ func c04RunF(L int, tcp bool, prefix int, consumerModes int, failAcks int) func(
 			return nil
 		}
 		cfg := TCfg(100, 350, 1000000)
+		if failAcks < 0 {
+			cfg = knx.TunnelConfig{} // every timing left to the defaults
+		}
 		cfg.UseTCP = tcp
 		t, err := knx.NewTunnelOnSocket(sock, knxnet.TunnelLayerData, cfg)
 		if err != nil {
@@ -315,6 +318,8 @@ func c04ReconnectOracle(tr *mc.Trace) []h.Violation {
 
 func init() {
 	register("both", &h.Scenario{Name: "C04-udp-stalled-reader-across-reconnect", Prop: "C04", P: 2, F: 0, D: 2, Run: c04Reconnect(), Check: c04ReconnectOracle})
+	register("both", &h.Scenario{Name: "C04-tcp-stream4-default-timings", Prop: "C04", P: 0, F: 0, D: -1, Run: c04RunF(4, true, 0, 2, -1), Check: c04Oracle(true)})
+	register("both", &h.Scenario{Name: "C04-udp-stream4-default-timings", Prop: "C04", P: 0, F: 0, D: -1, Run: c04RunF(4, false, 0, 2, -1), Check: c04Oracle(false)})
 	register("both", &h.Scenario{Name: "C04-udp-stream4-ack-write-fails", Prop: "C04", P: 0, F: 2, D: -1, Run: c04RunF(4, false, 0, 2, 2), Check: c04Oracle(false)})
 	register("both", &h.Scenario{Name: "C04-udp-stream4", Prop: "C04", P: 1, F: 0, D: 1, Run: c04Run(4, false, 0, 3), Check: c04Oracle(false)})
 	register("quick", &h.Scenario{Name: "C04-udp-stream5-p0", Prop: "C04", P: 0, F: 0, D: 0, Run: c04Run(5, false, 0, 3), Check: c04Oracle(false)})
